@@ -145,10 +145,30 @@ func SleepUntil(t int64) int {
 		th.sleepUntil = 0
 		return th.ws.fireDue()
 	}
+	if soloOwner != 0 && runtime.VerifGoid() != soloOwner {
+		select {} // background goroutine in a sequential engine: inert, it must not move the clock
+	}
 	eff := solo.earliest(t)
 	setAtLeast(eff)
 	return solo.fireDue()
 }
+
+var soloOwner uint64
+
+// CanSleep reports whether the caller may perform a virtual sleep: it is the running logical
+// thread of the active scheduler, or (no scheduler) the adopted driver of a sequential run.
+// Everybody else is a background goroutine: its timers are inert, but it must not be blocked
+// inside the shim either - the select around the timer channel has other cases (ctx.Done).
+func CanSleep() bool {
+	if s := active; s != nil {
+		return s.current() != nil
+	}
+	return soloOwner == 0 || runtime.VerifGoid() == soloOwner
+}
+
+// AdoptSolo declares the calling goroutine the driver of sequential (scheduler-less) runs: only
+// its virtual sleeps move the clock.
+func AdoptSolo() { soloOwner = runtime.VerifGoid() }
 
 // ---- scheduler ----------------------------------------------------------------------------
 
